@@ -31,7 +31,7 @@ func init() {
 			"nil READERS/WRITERS are not generated (the statement's nil clause is about destinations)",
 			"producers given unsupported sources are not judged (the totality clause is about destinations)",
 			"typed-nil pointers to user types that implement the codec's interfaces (io.ReaderFrom, encoding.TextUnmarshaler ...) are not generated: the panic would be raised by the user's method",
-			"'closed => closing option requested' is judged on every call; 'option requested => closed' only when the stream was read or written at least once",
+			"both directions of the closing clause are judged on every call, refusals before the stream was used included (the code used to leave the stream open there: repaired, commit 3e4ffa7)",
 			"a destination kind the codec does not document must not panic and must not report success after silently dropping a non-empty input; whether it returns an error for an EMPTY input is not judged",
 			"pre-populated *string / *[]byte / *interface{} destinations must hold exactly the bytes read after a successful call; pre-populated struct/map/slice destinations of JSON/XML/YAML are judged for panics only (merging is the decoder's documented behaviour)",
 			"JSON/XML/YAML round-trip values: valid UTF-8 only (XML: XML-1.0 characters; YAML: printable text), finite floats with a fractional part, non-empty collections (nil versus empty is not distinguished), interface{} members hold only the types the decoder itself produces (JSON: json.Number for numbers)",
@@ -193,8 +193,14 @@ func closeRules(m *mon.M, c *Case, side string, closes, touches int) {
 	if closes > 0 && !hasOption {
 		m.Violate("closed-without-option/"+c.Codec+"/"+side, fmt.Sprintf("%s %s: the %s stream was closed %d time(s) although no closing option was requested", c.Codec, c.Dir, side, closes), c)
 	}
-	if hasOption && touches > 0 && closes == 0 {
-		m.Violate("not-closed-with-option/"+c.Codec+"/"+side, fmt.Sprintf("%s %s: ClosesStream requested, the %s stream was used (%d calls) and never closed", c.Codec, c.Dir, side, touches), c)
+	if hasOption && closes == 0 {
+		// "closed if and only if the closing option was requested": also when the call refuses its
+		// destination or payload before touching the stream
+		feat := "stream-used"
+		if touches == 0 {
+			feat = "refused-before-use"
+		}
+		m.Violate("not-closed-with-option/"+c.Codec+"/"+side+"/"+feat, fmt.Sprintf("%s %s (%s): ClosesStream requested, the %s stream (%d calls) was never closed", c.Codec, c.Dir, c.Kind, side, touches), c)
 	}
 	if closes > 0 {
 		m.Class("stream-closed")
